@@ -71,6 +71,11 @@ func runC10(c *Check) {
 	_ = p
 	c.Rule("R10.5", "a failed in-fetch verification ends the fetch (panic or that error), never a silent success")
 	c10FetchVerdict(c, "R10.5")
+	c.Rule("R10.6", "the verification hasher accepts only blocks of the type (multihash code) it is registered for")
+	c10HasherBinding(c, "R10.6")
+	// the bitswap blocks rest on the shwap container verifiers (C01 root/position/axis gates, C02 completeness gates)
+	c.Rule("R10.7", "contracts the block verification rests on: shwap container verifier gates")
+	importRules(c, "R10.7", "C01 R1.1-R1.3 verifier gates", runC01, pickRule("R1.1", "R1.2", "R1.3"), func(s *Check) int { return s.evals })
 }
 
 func c10Unmarshal(c *Check, bt *types.Named, vs []*verifier) {
